@@ -201,6 +201,19 @@ func CheckTxnStatus(db *NoKV.DB, latches *latch.Manager, req *pb.CheckTxnStatusR
 			resp.Error = keyErrorLocked(req.PrimaryKey, lock)
 			return resp
 		}
+		if write, commitTs, err := reader.GetWriteByStartTs(req.PrimaryKey, req.LockTs); err != nil {
+			resp.Error = keyErrorRetryable(err)
+			return resp
+		} else if write != nil && write.Kind != pb.Mutation_Rollback {
+			// The transaction is committed on this key and only its lock was left
+			// behind by an interrupted commit: remove it and report the commit.
+			if err := db.DeleteVersionedEntry(kv.CFLock, req.PrimaryKey, lockColumnTs); err != nil && err != utils.ErrKeyNotFound {
+				resp.Error = keyErrorRetryable(err)
+				return resp
+			}
+			resp.CommitVersion = commitTs
+			return resp
+		}
 		if isLockExpired(lock, req.CurrentTs) {
 			if err := rollbackKey(db, reader, req.PrimaryKey, req.LockTs); err != nil {
 				resp.Error = err
